@@ -42,6 +42,8 @@ def run_job(job):
         form = rng.choice(job['forms'])
         eid = f"{job['prefix']}:{ci}"
         vals = rng.sample(PRIMES, len(PRIMES))
+        while len(vals) < len(bins):          # large graded layouts need more distinct values than there are primes in the list
+            vals.append(PRIMES[len(vals) % len(PRIMES)] + 1000 * (len(vals) // len(PRIMES)))
         vals = [v if rng.random() < 0.7 else -v for v in vals]
         valid, supplied, build = True, [], None
         if graded:
@@ -107,7 +109,7 @@ def run_job(job):
         elif form == 'bad_length':
             valid = False
             ks = ks or [bins[0]]
-            build = lambda: alg.multivector(keys=tuple(ks), values=list(vals[:len(ks) + 1]))
+            build = lambda: alg.multivector(keys=tuple(ks), values=list(vals[:len(ks)]) + [991])     # one value too many
         elif form == 'bad_grade_keys':
             valid = False
             k = rng.choice([b for b in bins if bin(b).count('1') >= 1]) if d >= 1 else None
